@@ -1,21 +1,40 @@
 (* Properties_C01.v - step file writes round-trip.
-   Model: StepDefs.v (step.c / robsd-step.c, field table and bounds regenerated from
-   the source by t_step.py).  Specification: StepSpec.v (abstract dictionary).
-   [rowdata] = a complete row with valid fields; [abs ds] = the abstract state
-   of the rows [ds]; [file_of ds] = header plus the serialised rows.
+   Model: StepDefs.v (step.c / robsd-step.c; field table, bounds, value check and the stdio result
+   checks regenerated from the source by t_step.py), StepFault.v (a file system that accepts only the
+   first k bytes of the rewrite).  Specification: StepSpec.v (abstract dictionary) and StepLatest.v
+   (the most recent accepted write to an id that mentions a column).
+   [rowdata] = a complete row with valid fields; [abs ds] = the abstract state of the rows [ds];
+   [file_of ds] = header plus the serialised rows; [cw w] = a command's arguments as C strings.
 
-   Full statement (properties.jsonl C01), all quantifiers unbounded:
-   (1) after any sequence of write commands the file is readable and reading
-       returns the most recently written value of each field, rows ascending,
-       other rows unchanged;  (2) a rejected write leaves the file unchanged;
-   (3) exit 0 only if the file holds the new state, even under a flush failure.
-   Scope notes, visible here rather than hidden in a lemma:
-   - key=value arguments that address the id column itself (step=...) are
-     outside the quantifier (the id is given by -i; the orchestrator never does
-     that): hypothesis [no_id_key];
-   - arguments are C strings (argv), hence the [cstr] on the specification side. *)
-From Robsd Require Import Step.StepSpec Step.StepRows Step.StepWrite Step.StepHistory Interp.InterpSpec.
-From RobsdGen Require Import Gen_Step.
+   Statement (properties.jsonl C01) and where each clause is:
+   (1) after any sequence of writes the file is readable and a read returns the most recently written
+       value of each field (default when never written), rows ascending, other ids unchanged:
+       C01_latest_value (dictionary, every argument list), C01_latest_value_read (robsd-step -R by
+       position and by name), C01_dictionary_adequate, C01_other_ids_unchanged, C01_roundtrip_history;
+   (2) a rejected write exits non-zero and leaves the file unchanged: C01_reject_unchanged,
+       C01_reject_unchanged_any_fault;
+   (3) exit 0 only if the file holds the new state, even when the file system refuses the write:
+       C01_exit0_holds_state, C01_exit0_any_partial_write, C01_partial_write_view.
+   Refuted, with the witnesses replayed on robsd-step:
+   - a history containing a write the file system refused does not keep the earlier rows
+     (C01_refused_write_forgets_rows_refuted; known finding refused-write-damages-file,
+     findings/C01_refused_write_forgets_rows.md);
+   - on a hand-made file holding '$' in a stored string, exit 0 does not mean that the file reads back
+     as the rows asked for (C01_exit0_holds_state_refuted; guard [Forall okrow rows], which every file
+     written by robsd-step satisfies).
+   Repaired in /repo (17c91c8; findings/C01_step_key_renumbers.md): step=J with J different from the -i id
+   used to be accepted and renumbered the row.  action_write now compares the id column with -i; the
+   translator reads that test into the switch [step_key_checked], [write_cmd] = [write_cmd_with
+   step_key_checked], and C01_write_refines_dictionary / C01_roundtrip_history / C01_latest_value_read hold
+   for EVERY argument list by [eq_refl] on the switch: should the test disappear, the switch flips, these
+   proofs no longer check and the harness reports signature step-key-renumbers-row.  The theorems about
+   [write_cmd_with false] (C01_write_refines_dictionary_refuted, _partial, C01_renumbering_write_accepted)
+   are the record of the defect: facts about the command as it shipped, independent of the switch.
+   Arguments are C strings (argv), hence the [cstr] on the specification side. *)
+From Robsd Require Import Step.StepSpec Step.StepRows Step.StepWrite Step.StepHistory Step.StepFault Step.StepExit0
+  Step.StepRenumber Step.StepLatest Step.StepNameSpec Step.StepRead Step.StepOracle Interp.InterpSpec.
+From Robsd Require Import Lock.LockOps Lock.LockTie.
+From RobsdGen Require Import Gen_Step Gen_Lock.
 Local Open Scope N_scope.
 
 (* a well-formed file reads back as exactly its rows *)
@@ -24,30 +43,120 @@ Theorem C01_parse_serialize : forall ds,
 Proof. exact parse_file_of. Qed.
 Print Assumptions C01_parse_serialize.
 
-(* one write: accepted iff the specification accepts; then the file is the
-   serialisation of the updated dictionary (sorted, other rows untouched by
-   [alist_put]); otherwise exit 1 and the same bytes *)
+(* ---- the dictionary specification means what it says ------------------------------------------------- *)
+
+(* lookup after put: the record just put; other keys untouched; keys stay strictly ascending *)
+Theorem C01_dictionary_adequate : forall id id' r s,
+  alist_find id (alist_put id r s) = Some r /\
+  (id' <> id -> alist_find id' (alist_put id r s) = alist_find id' s) /\
+  (ascz (keys s) -> ascz (keys (alist_put id r s))) /\
+  (forall k, In k (keys (alist_put id r s)) <-> k = id \/ In k (keys s)).
+Proof.
+  exact (fun id id' r s => conj (alist_find_put_same id r s)
+          (conj (alist_find_put_other id id' r s)
+          (conj (alist_put_asc id r s) (alist_put_keys_In id r s)))).
+Qed.
+Print Assumptions C01_dictionary_adequate.
+
+(* key=value arguments: for every column the LAST mention wins, unmentioned columns keep their content *)
+Theorem C01_repeated_keys_last_wins : forall r kvs r' f,
+  length r = 9%nat -> apply_kvs r kvs = Some r' ->
+  nth f r' None = match mentions kvs f with Some v => Some v | None => nth f r None end.
+Proof. exact apply_kvs_last_wins. Qed.
+Print Assumptions C01_repeated_keys_last_wins.
+
+(* THE SENTENCE, on the dictionary, for EVERY history and argument list (step=... included):
+   column f of id i holds the value of the most recent accepted write to i that mentions f, the
+   documented default when none does, and there is no row when no write to i was accepted *)
+Theorem C01_latest_value : forall ws id f,
+  lookup (fold_left sstep ws []) id f = latest (tagged [] ws []) id f.
+Proof. exact latest_value. Qed.
+Print Assumptions C01_latest_value.
+
+(* the documented defaults: delta 0, log empty, skip 0, the id itself; no default for the mandatory columns *)
+Theorem C01_defaults_as_documented : forall id,
+  map (default_field id) (seq 0 9) =
+  [Some (VInt id); None; None; None; Some (VInt 0); Some (VStr []); None; None; Some (VInt 0)].
+Proof. exact default_field_table. Qed.
+Print Assumptions C01_defaults_as_documented.
+
+(* rows of other ids unchanged by a command; a rejected command changes nothing; ascending ids *)
+Theorem C01_other_ids_unchanged : forall s w id f,
+  accepted_id s w <> Some id -> lookup (sstep s w) id f = lookup s id f.
+Proof. exact other_ids_unchanged. Qed.
+Print Assumptions C01_other_ids_unchanged.
+
+Theorem C01_history_keys_ascending : forall ws, ascz (keys (fold_left sstep ws [])).
+Proof. exact history_keys_ascending. Qed.
+Print Assumptions C01_history_keys_ascending.
+
+(* ---- robsd-step -W refines the dictionary ------------------------------------------------------------------ *)
+
+(* one write, EVERY argument list (step=... included): accepted iff the specification accepts; then
+   the file is the serialisation of the updated dictionary; otherwise exit 1 and the same bytes.
+   Holds of the source as it stands, by [eq_refl] on the switch the translator reads from action_write *)
 Theorem C01_write_refines_dictionary : forall ds file idarg kvs,
-  Forall wfdata ds -> sorted ds -> reps ds file -> no_id_key (map cstr kvs) ->
+  Forall wfdata ds -> sorted ds -> reps ds file ->
   match spec_write (abs ds) (cstr idarg) (map cstr kvs) with
   | Some s' => exists ds', s' = abs ds' /\ Forall wfdata ds' /\ sorted ds' /\
                            write_cmd false (Some file) idarg kvs = (0, Some (file_of ds'))
   | None => write_cmd false (Some file) idarg kvs = (1, Some file)
   end.
-Proof. exact write_refines. Qed.
+Proof. exact (write_refines_checked eq_refl). Qed.
 Print Assumptions C01_write_refines_dictionary.
 
-(* every history from the empty file: the file on disk always represents the
-   dictionary obtained by applying the accepted writes in order *)
+(* every history from the empty file, EVERY argument list: the file on disk always represents the
+   dictionary obtained by applying the accepted writes in order (again by the switch) *)
 Theorem C01_roundtrip_history : forall ws,
-  Forall (fun w => no_id_key (map cstr (snd w))) ws ->
   exists ds, Forall wfdata ds /\ sorted ds /\ reps ds (fold_left model_step ws []) /\
              abs ds = fold_left spec_step ws [].
-Proof. exact roundtrip_history. Qed.
+Proof. exact (fun ws => roundtrip_history_gen ws (never_renumbers_checked eq_refl ws [])). Qed.
 Print Assumptions C01_roundtrip_history.
 
-(* reading field f of the row at position pos returns the dictionary's value *)
-Theorem C01_read_returns_latest : forall ds file posarg pos fd,
+(* HISTORICAL RECORD (defect repaired in /repo 17c91c8) - the command WITHOUT the id test,
+   [write_cmd_with false], what robsd-step did until then.
+   _partial: it refines the dictionary for every argument list outside the exact guard [renumbers] *)
+Theorem C01_write_refines_dictionary_partial : forall ds file idarg kvs,
+  Forall wfdata ds -> sorted ds -> reps ds file ->
+  renumbers (abs ds) (cstr idarg) (map cstr kvs) = false ->
+  match spec_write (abs ds) (cstr idarg) (map cstr kvs) with
+  | Some s' => exists ds', s' = abs ds' /\ Forall wfdata ds' /\ sorted ds' /\
+                           write_cmd_with false false (Some file) idarg kvs = (0, Some (file_of ds'))
+  | None => write_cmd_with false false (Some file) idarg kvs = (1, Some file)
+  end.
+Proof. exact write_refines_unchecked. Qed.
+Print Assumptions C01_write_refines_dictionary_partial.
+
+(* _refuted: -i 1 step=5 is rejected by the specification and accepted by that command, which renumbers
+   row 1; step=2 on id 5 then yields two rows with id 2 (witness replayed on the binary before the repair);
+   with the test both commands exit 1 and ids 1, 2 stay *)
+Theorem C01_write_refines_dictionary_refuted :
+  let file2 := fold_left (model_step_with false) (firstn 2 rn_hist) [] in
+  let file3 := fold_left (model_step_with false) (firstn 3 rn_hist) [] in
+  let file4 := fold_left (model_step_with false) rn_hist [] in
+  spec_write (fold_left spec_step (firstn 2 rn_hist) []) [49] [[115;116;101;112;61;53]] = None /\
+  fst (write_cmd_with false false (Some file2) [49] [[115;116;101;112;61;53]]) = 0 /\
+  omap (map row_id) (parse_file file3) = Some [2; 5]%Z /\
+  omap (map row_id) (parse_file file4) = Some [2; 2]%Z /\
+  fst (write_cmd_with true false (Some file2) [49] [[115;116;101;112;61;53]]) = 1 /\
+  omap (map row_id) (parse_file (fold_left (model_step_with true) rn_hist [])) = Some [1; 2]%Z.
+Proof. exact write_refines_refuted. Qed.
+Print Assumptions C01_write_refines_dictionary_refuted.
+
+(* exactly what happened inside the guard, for all files and arguments: the specification rejects,
+   the command without the test exits 0 *)
+Theorem C01_renumbering_write_accepted : forall ds file idarg kvs,
+  Forall wfdata ds -> reps ds file ->
+  renumbers (abs ds) (cstr idarg) (map cstr kvs) = true ->
+  spec_write (abs ds) (cstr idarg) (map cstr kvs) = None /\
+  fst (write_cmd_with false false (Some file) idarg kvs) = 0.
+Proof. exact renumbers_exit0. Qed.
+Print Assumptions C01_renumbering_write_accepted.
+
+(* ---- robsd-step -R ---------------------------------------------------------------------------------------------- *)
+
+(* reading column f of the row at position pos returns the dictionary's value *)
+Theorem C01_read_by_position : forall ds file posarg pos fd,
   Forall wfdata ds -> reps ds file -> In fd fields ->
   strtonum id_min id_max (cstr posarg) = NumOk pos ->
   read_cmd (Some file) (ById posarg) (ref (fd_name fd) ++ [NL]) =
@@ -56,7 +165,47 @@ Theorem C01_read_returns_latest : forall ds file posarg pos fd,
     | None => (1, [])
     end.
 Proof. exact read_refines. Qed.
-Print Assumptions C01_read_returns_latest.
+Print Assumptions C01_read_by_position.
+
+(* reading by name (util.sh step_eval -n): the first row in ascending id order with that name *)
+Theorem C01_read_by_name : forall ds file n fd,
+  Forall wfdata ds -> reps ds file -> In fd fields ->
+  read_cmd (Some file) (ByName n) (ref (fd_name fd) ++ [NL]) =
+    match spec_read_name (abs ds) (cstr n) (fd_name fd) with
+    | Some v => (0, v ++ [NL])
+    | None => (1, [])
+    end.
+Proof. exact read_refines_by_name. Qed.
+Print Assumptions C01_read_by_name.
+
+(* the row of an id is at the position given by the number of rows with a smaller id *)
+Theorem C01_position_of_id : forall id ds d,
+  sorted ds -> find_data id ds = Some d -> nth_error ds (pos_of id ds) = Some d.
+Proof. exact position_of_id. Qed.
+Print Assumptions C01_position_of_id.
+
+(* THE SENTENCE, on robsd-step: after ANY history of writes (by the switch, see above), the file holds rows
+   in ascending id order; for every id and column: no row if no write to the id was ever accepted;
+   otherwise reading the column at the id's position, or by the row's name, prints exactly the most
+   recently written value (the default if never written) *)
+Theorem C01_latest_value_read : forall ws,
+  exists ds, Forall wfdata ds /\ sorted ds /\ reps ds (fold_left model_step ws []) /\
+    forall id fd, In fd fields ->
+      match latest (tagged [] (map cw ws) []) id (fd_index fd) with
+      | None => find_data id ds = None
+      | Some x =>
+          exists d v, find_data id ds = Some d /\ x = Some v /\
+            (forall posarg, strtonum id_min id_max (cstr posarg) = NumOk (Z.of_nat (S (pos_of id ds))) ->
+               read_cmd (Some (fold_left model_step ws [])) (ById posarg) (ref (fd_name fd) ++ [NL]) =
+                 (0, render_value v ++ [NL])) /\
+            (forall n, first_named (cstr n) ds = Some d ->
+               read_cmd (Some (fold_left model_step ws [])) (ByName n) (ref (fd_name fd) ++ [NL]) =
+                 (0, render_value v ++ [NL]))
+      end.
+Proof. exact (fun ws => latest_value_read ws (never_renumbers_checked eq_refl ws [])). Qed.
+Print Assumptions C01_latest_value_read.
+
+(* ---- rejected writes ------------------------------------------------------------------------------------------------ *)
 
 (* for EVERY file content (well-formed or not): a write that exits non-zero
    without a file system fault leaves the file byte-for-byte unchanged *)
@@ -65,19 +214,137 @@ Theorem C01_reject_unchanged : forall file idarg kvs,
 Proof. exact reject_unchanged. Qed.
 Print Assumptions C01_reject_unchanged.
 
-(* for every file and every fault: exit 0 only without a flush failure and with
-   the newly serialised state in the file *)
-Theorem C01_exit0_holds_state : forall fault file idarg kvs,
-  fst (write_cmd fault file idarg kvs) = 0 ->
-  fault = false /\ exists b, snd (write_cmd fault file idarg kvs) = Some (header ++ b).
-Proof. exact exit0_only_without_fault. Qed.
+(* a command that rejects its arguments never reaches the truncation: whatever the file system
+   would do (nothing accepted, only the first k bytes accepted, the flush refused), exit 1 and the same bytes *)
+Theorem C01_reject_unchanged_any_fault : forall file idarg kvs,
+  fst (write_cmdk None file idarg kvs) <> 0 ->
+  (forall fault, write_cmdk fault file idarg kvs = (1, file)) /\
+  (fst (write_cmd false file idarg kvs) <> 0 -> forall fault, write_cmd fault file idarg kvs = (1, file)).
+Proof.
+  exact (fun file idarg kvs H =>
+           conj (fun fault => reject_unchanged_any_fault fault file idarg kvs H)
+                (fun H' fault => reject_unchanged_flush_fault fault file idarg kvs H')).
+Qed.
+Print Assumptions C01_reject_unchanged_any_fault.
+
+(* the reason a late rejection (a new row lacking a mandatory column, found only when the row is
+   serialised) cannot touch the file: in steps_write, as the source stands today (Gen_Lock), every row
+   is sorted and serialised into memory BEFORE fopen("we") truncates the file *)
+Theorem C01_serialise_before_truncate :
+  write_path = [FSerialize; FPoint 3; FTruncate; FPoint 4; FWrite; FFlushClose; FPoint 5].
+Proof. exact (proj1 (proj2 call_lists)). Qed.
+Print Assumptions C01_serialise_before_truncate.
+
+(* ---- exit 0 ---------------------------------------------------------------------------------------------------------------- *)
+
+(* for every file whose stored strings hold no '$' (every file robsd-step wrote), EVERY argument list
+   and the flush fault: exit 0 only without the fault, the arguments were acceptable, the file is header +
+   the rows asked for ([spec_update]: first row with the id updated, or a new row appended) serialised in
+   ascending id order, and it reads back as exactly these rows *)
+Theorem C01_exit0_holds_state : forall fault content rows idarg kvs,
+  parse_file content = Some rows -> Forall okrow rows ->
+  fst (write_cmd fault (Some content) idarg kvs) = 0 ->
+  fault = false /\
+  exists id rs b,
+    denote_id (cstr idarg) = Some id /\ spec_update rows id (map cstr kvs) = Some rs /\
+    serialize_rows (sort_rows rs) = Some b /\
+    snd (write_cmd fault (Some content) idarg kvs) = Some (header ++ b) /\
+    parse_file (header ++ b) = Some (sort_rows rs).
+Proof. exact exit0_flush_fault. Qed.
 Print Assumptions C01_exit0_holds_state.
+
+(* the same when the file system accepts only the first k bytes, for every k *)
+Theorem C01_exit0_any_partial_write : forall fault content rows idarg kvs,
+  parse_file content = Some rows -> Forall okrow rows ->
+  fst (write_cmdk fault (Some content) idarg kvs) = 0 ->
+  exists id rs b,
+    denote_id (cstr idarg) = Some id /\ spec_update rows id (map cstr kvs) = Some rs /\
+    serialize_rows (sort_rows rs) = Some b /\
+    snd (write_cmdk fault (Some content) idarg kvs) = Some (header ++ b) /\
+    parse_file (header ++ b) = Some (sort_rows rs).
+Proof. exact exit0_any_fault. Qed.
+Print Assumptions C01_exit0_any_partial_write.
+
+(* outside the guard (a hand-made file with name "${user}"): exit 0 and the file does NOT read back as
+   the rows asked for *)
+Theorem C01_exit0_holds_state_refuted :
+  exists content rows idarg kvs rs b,
+    parse_file content = Some rows /\
+    write_cmd false (Some content) idarg kvs = (0, Some (header ++ b)) /\
+    spec_update rows 2 (map cstr kvs) = Some rs /\
+    parse_file (header ++ b) <> Some (sort_rows rs).
+Proof. exact exit0_new_state_refuted. Qed.
+Print Assumptions C01_exit0_holds_state_refuted.
+
+(* what a partial write leaves: nothing changes when the arguments are rejected; otherwise the file
+   is exactly the first k bytes of the new content and the command fails unless that is all of it *)
+Theorem C01_partial_write_view : forall k content idarg kvs,
+  match write_new content idarg kvs with
+  | None => write_cmdk (Some k) (Some content) idarg kvs = (1, Some content)
+  | Some new =>
+      write_cmdk None (Some content) idarg kvs = (0, Some new) /\
+      write_cmdk (Some k) (Some content) idarg kvs =
+        (if (length new <=? k)%nat then 0 else 1, Some (firstn k new))
+  end.
+Proof. exact partial_write_view. Qed.
+Print Assumptions C01_partial_write_view.
+
+(* what the next command sees: an empty file is a valid step file without rows - every read fails;
+   a cut on a row boundary is a well-formed file of the first j rows; a file that does not parse makes
+   every later command fail and stay away from it *)
+Theorem C01_after_refused_write :
+  (forall sel t, read_cmd (Some []) sel t = (1, [])) /\
+  (forall ds j, Forall wfdata ds ->
+     firstn (length (file_of (firstn j ds))) (file_of ds) = file_of (firstn j ds) /\
+     parse_file (file_of (firstn j ds)) = Some (map row_of (firstn j ds))) /\
+  (forall fault content, parse_file content = None ->
+     (forall idarg kvs, write_cmd fault (Some content) idarg kvs = (1, Some content)) /\
+     (forall k idarg kvs, write_cmdk k (Some content) idarg kvs = (1, Some content)) /\
+     (forall sel t, read_cmd (Some content) sel t = (1, []))).
+Proof. exact (conj empty_file_reads_fail (conj cut_at_row_boundary unparsable_is_stuck)). Qed.
+Print Assumptions C01_after_refused_write.
+
+(* hence clause (1) does not survive a refused write in the history: ids 1 and 2 written, write 3
+   refused entirely (exit 1, empty file), write 4 accepted: only id 4 is left, reading "one" fails *)
+Theorem C01_refused_write_forgets_rows_refuted :
+  let f2 := fold_left model_step [([49], fw_full [111;110;101]); ([50], fw_full [116;119;111])] [] in
+  let r3 := write_cmdk (Some 0%nat) (Some f2) [51] (fw_full [116;104;114;101;101]) in
+  let r4 := write_cmdk None (snd r3) [52] (fw_full [102;111;117;114]) in
+  omap (map row_id) (parse_file f2) = Some [1; 2]%Z /\
+  r3 = (1, Some []) /\ fst r4 = 0 /\
+  omap (map row_id) (match snd r4 with Some f => parse_file f | None => None end) = Some [4]%Z /\
+  read_cmd (snd r4) (ByName [111;110;101]) (ref [110;97;109;101] ++ [NL]) = (1, []).
+Proof. exact refused_write_forgets_rows. Qed.
+Print Assumptions C01_refused_write_forgets_rows_refuted.
+
+(* ---- the oracle of the harness ------------------------------------------------------------------------------------------ *)
+
+(* [spec_ok_history], applied by the harness to what robsd-step did, accepts what the model does *)
+Theorem C01_oracle_accepts_model : forall ws reads,
+  Forall (fun q => In (snd q) fields /\ (id_min <= fst q <= id_max)%Z) reads ->
+  spec_ok_history (model_obs_writes [] ws) (map (model_obs_read (fold_left model_step ws [])) reads) = true.
+Proof. exact (fun ws reads => oracle_accepts_model ws reads (never_renumbers_checked eq_refl ws [])). Qed.
+Print Assumptions C01_oracle_accepts_model.
+
+(* and [spec_ok_names], the oracle for reads by name *)
+Theorem C01_names_oracle_accepts_model : forall ws reads,
+  Forall (fun q => In (snd q) fields) reads ->
+  spec_ok_names (model_obs_writes [] ws) (map (model_obs_read_name (fold_left model_step ws [])) reads) = true.
+Proof. exact (fun ws reads => names_oracle_accepts_model ws reads (never_renumbers_checked eq_refl ws [])). Qed.
+Print Assumptions C01_names_oracle_accepts_model.
+
+(* ---- values ---------------------------------------------------------------------------------------------------------------- *)
 
 (* integers survive printing and strtonum, at every magnitude the type holds *)
 Theorem C01_integer_roundtrip : forall lo hi z,
   (lo <= z <= hi)%Z -> strtonum lo hi (render_Z z) = NumOk z.
 Proof. exact DecimalProofs.strtonum_render. Qed.
 Print Assumptions C01_integer_roundtrip.
+
+(* the documented 64-bit range of integer columns is the range step.c passes to strtonum *)
+Theorem C01_integer_bounds : i64_min = int_min /\ i64_max = int_max.
+Proof. exact spec_bounds_are_source_bounds. Qed.
+Print Assumptions C01_integer_bounds.
 
 (* the documented table: what the translator read from step.c today *)
 Theorem C01_table_as_documented :
@@ -102,8 +369,12 @@ Example C01_example :
     bs "step,name,exit,duration,delta,log,user,time,skip
 1,one,1,5,0,001-one.log,build,7,0
 2,two,3,9223372036854775807,0,,root,-9223372036854775808,0
-" /\ Forall (fun w => no_id_key (map cstr (snd w))) [w1; w2; bad; w3].
+" /\ Forall (fun w => no_id_key (map cstr (snd w))) [w1; w2; bad; w3] /\
+  latest (tagged []%list (map cw [w1; w2; bad; w3]) []%list) 2 2 = Some (Some (VInt 3)) /\
+  latest (tagged []%list (map cw [w1; w2; bad; w3]) []%list) 2 4 = Some (Some (VInt 0)) /\
+  latest (tagged []%list (map cw [w1; w2; bad; w3]) []%list) 3 1 = None.
 Proof.
-  split; [vm_compute; reflexivity|].
-  repeat (apply Forall_cons; [apply no_id_keyb_spec; vm_compute; reflexivity|]). apply Forall_nil.
+  split; [vm_compute; reflexivity|]. split.
+  - repeat (apply Forall_cons; [apply no_id_keyb_spec; vm_compute; reflexivity|]). apply Forall_nil.
+  - vm_compute. repeat split; reflexivity.
 Qed.
